@@ -15,6 +15,7 @@ CONSTANTS
   Menu = {{}, {1}, {0, 3}, {0, 2, 3}, {1, 2, 3}}
   Moods = {"quiet", "plain", "plain", "reorg", "reorg"}
   MaxReorgs = 1
+  Focus = FALSE
   Fams = {"all"}
 INVARIANTS Emit AttestedBounded SubsBounded RootsBounded RecordsBounded JobsBounded PendingExact
 CHECK_DEADLOCK FALSE
